@@ -140,6 +140,8 @@ pub enum Mode {
     /// the deterministic predicate used to localise the culprit: twice down and up the whole history, comparing at every
     /// operation boundary with the snapshot recorded there
     Stairs,
+    /// cheap first pass of the localisation: two rounds that stop only at the last operation boundary, the start and the end
+    LastStep,
 }
 
 /// Core procedure on one list of operations (no second phase).
@@ -158,11 +160,17 @@ pub fn run_core(doc: &DocM, ops: &[Op], walk: &[u16], mode: Mode) -> Run {
         let r = guarded(|| it.apply(&mut st, op));
         match r {
             Ok((Ok(()), t)) => touches.push(t),
-            Ok((Err(_), _)) => {
+            Ok((Err(e), _)) => {
+                if std::env::var_os("C08_ENDED").is_some() {
+                    println!("ENDED {} Err {}", op.kind(), e);
+                }
                 let _ = guarded(|| it.close_all());
                 return Run::Ended { index: i, kind: op.kind(), panic: false };
             }
-            Err(_) => {
+            Err((sig, _)) => {
+                if std::env::var_os("C08_ENDED").is_some() {
+                    println!("ENDED {} {}", op.kind(), sig);
+                }
                 // the state may be inconsistent (poisoned lock): dispose of it under a guard
                 let _ = guarded(move || {
                     it.close_all();
@@ -189,7 +197,7 @@ pub fn run_core(doc: &DocM, ops: &[Op], walk: &[u16], mode: Mode) -> Run {
                 }
                 return Run::Failed(f);
             }
-        } else if (mode == Mode::Stairs || targets.contains(&(i + 1))) && i + 1 < ops.len() {
+        } else if (mode == Mode::Stairs || (mode == Mode::LastStep && i + 2 == ops.len()) || targets.contains(&(i + 1))) && i + 1 < ops.len() {
             marks[i + 1] = Some(snapshot::take(st.get_buffer()));
         }
     }
@@ -210,7 +218,7 @@ pub fn run_core(doc: &DocM, ops: &[Op], walk: &[u16], mode: Mode) -> Run {
     let res = (|| {
         let mut mv = Mover { st: &mut st, depth: g, depth_after: &depth_after };
         mv.round(len0, &s0, &s1, "first round")?;
-        if mode == Mode::Stairs {
+        if mode == Mode::Stairs || mode == Mode::LastStep {
             let at = |t: usize| -> Option<(usize, &Snapshot)> {
                 if t == 0 {
                     Some((0, &s0))
@@ -385,6 +393,18 @@ fn localise(c: &Case, ops: &[Op], f: Failure) -> Verdict {
     if let Some(v) = scan_prefixes(c, ops, &f, "") {
         return v;
     }
+    if c.stepwise {
+        // the failure needs the rounds between the operations: replay exactly that on every prefix (open groups are closed
+        // at the end of a prefix, which also tells operations inside a group apart)
+        if flat.len() != ops.len() {
+            if let Some(v) = scan_with(c, &flat, &f, " (stepwise, atomic group markers removed)", Mode::Stepwise) {
+                return v;
+            }
+        }
+        if let Some(v) = scan_with(c, ops, &f, " (stepwise)", Mode::Stepwise) {
+            return v;
+        }
+    }
     let culprit = f.owner.and_then(|i| ops.get(i));
     let kind = culprit.map(|o| o.kind()).unwrap_or_else(|| "?".into());
     Verdict::fail(
@@ -395,8 +415,12 @@ fn localise(c: &Case, ops: &[Op], f: Failure) -> Verdict {
 }
 
 fn scan_prefixes(c: &Case, ops: &[Op], f: &Failure, note: &str) -> Option<Verdict> {
+    scan_with(c, ops, f, note, Mode::LastStep).or_else(|| scan_with(c, ops, f, note, Mode::Stairs))
+}
+
+fn scan_with(c: &Case, ops: &[Op], f: &Failure, note: &str, mode: Mode) -> Option<Verdict> {
     for p in 1..=ops.len() {
-        match run_core(&c.doc, &ops[..p], &[], Mode::Stairs) {
+        match run_core(&c.doc, &ops[..p], &[], mode) {
             Run::Failed(pf) => {
                 // a step that returns Err or panics names its own operation; a wrong document names the operation that made
                 // the prefix fail
